@@ -1,4 +1,122 @@
-import RqModel.Model.SnapCat
+/-
+C09  Snapshot catalog stays well-formed and full-needed is honoured.
+
+Model: RqModel/Model/SnapCat.lean (snapshot/store.go Create/List/DueNext/SetDueNext/NewStore,
+snapshot/sink.go Open/Write/Close/Cancel as of the `fix:` commit 32ed8a9, sink_full.go) over the
+directory model RqModel/Model/SnapFS.lean. Lemmas: RqModel/Lemmas/SnapCat.lean.
+
+Operation sequences are arbitrary lists of `COp` (create, full payload {complete, short, bad CRC},
+incremental payload, close, close with a failing final rename, cancel, SetDueNext(Full), reopen,
+crash at any of the four points inside Close) subject to `OpOK`: one sink open at a time, created
+with a fresh name and a (term, index) not below any listed snapshot, incremental payloads carry at
+least one WAL file. Reap is covered by C07 (its effect on a well-formed store is proved there).
+-/
+import RqModel.Lemmas.SnapCat
+import RqModel.Gen.SinkShape
 namespace C09
-theorem wip : True := trivial
+open RqModel.SnapFS RqModel.SnapCat
+
+variable {D : Type}
+
+/-- After any admissible operation sequence on an empty store — including sinks that fail, are
+cancelled, or are cut by a crash inside Close, and restarts —: listing succeeds and shows only
+directories that completed the final rename (`Listed`: not temporary, meta.json naming the
+directory, a database with matching CRC or at least one WAL file), and every listed incremental
+has a listed full snapshot at or before it in (term, index, name) order, i.e. resolves to one
+full database followed by WAL segments. -/
+theorem catalog_inv (A : DbAlg D) (ops : List (COp D)) (hok : OpsOK A {} ops) :
+    let s := runOps A {} ops
+    (∃ xs, scan s.fs = .ok xs ∧ ∀ x ∈ xs, Listed s.fs x) ∧
+    (∀ n d, Live s.fs n d → d.db = none →
+      ∃ n' d', Live s.fs n' d' ∧ d'.db.isSome ∧ keyLe (keyOf n' d') (keyOf n d)) := by
+  have hinv := runOps_inv A ops {} catInv_empty hok
+  exact ⟨scan_ok hinv, hinv.based⟩
+
+/-- Close never installs an incremental snapshot while a full one is required, whenever the
+requirement was raised (before or after the header was accepted). -/
+theorem no_incremental_while_full_needed (s : CS D) (h : Nat) (k : Sink D) (wals : List Nat)
+    (hk : getSink s h = some k) (ho : k.opened = true) (hi : k.hdr = .inc wals)
+    (hok : (close true s h).2 = "ok") : s.fs.fullNeeded = false :=
+  close_inc_needs_no_full s h k wals hk hi hok ho
+
+/-- … and the header Write refuses it in the first place. -/
+theorem incremental_header_refused_when_full_due (s : CS D) (h : Nat) (k : Sink D) (wals : List Nat)
+    (hk : getSink s h = some k) (hh : k.hdr = .none) (hf : fullDue s.fs = true) :
+    (writeInc s h wals).2 = "err full-needed" := by
+  simp [writeInc, hk, hh, hf]
+
+/-- The requirement is cleared only by a Close that returned success (which installs a snapshot):
+no other operation, no failed or cancelled sink, no crash, reap or restart clears it. -/
+theorem full_needed_cleared_only_by_install (A : DbAlg D) (s : CS D) (op : COp D)
+    (h1 : s.fs.fullNeeded = true) (h2 : (stepOp A s op).1.fs.fullNeeded = false) :
+    ∃ h, op = .close h ∧ (stepOp A s op).2 = "ok" :=
+  fullNeeded_cleared_only_by_close A s op h1 h2
+
+/-- The defect repaired by 32ed8a9, on Close as it was (no re-check): create; full; close;
+create; incremental header accepted; SetDueNext(Full); close ⇒ the incremental is installed and
+the requirement cleared. -/
+def witnessOps : CS (List Nat) :=
+  let s := create {} 1 1 10 1
+  let s := (writeFull s 1 [1] [] .ok).1
+  let s := (close true s 1).1
+  let s := create s 2 2 20 1
+  let s := (writeInc s 2 [2]).1
+  setFull s
+
+theorem close_before_fix_witness :
+    witnessOps.fs.fullNeeded = true ∧
+    (close false witnessOps 2).2 = "ok" ∧ (close false witnessOps 2).1.fs.fullNeeded = false ∧
+    ((close false witnessOps 2).1.fs.dir 2).isSome = true ∧
+    (close true witnessOps 2).2 = "err full-needed" ∧ (close true witnessOps 2).1.fs.fullNeeded = true := by
+  decide
+
+/-! ### tie to the source (regenerated on every run) -/
+
+/-- Close re-examines the requirement before consuming anything, clears it only after the final
+rename, and the crash cuts of the model follow the source order of its steps; Write refuses an
+incremental header while a full snapshot is due. -/
+theorem sink_shape_from_source :
+    RqModel.Gen.SinkShape.closeSteps =
+      ["recheck-DueNext", "rename-waldir-into-tmp", "move-wal-files", "fullsink-close", "write-meta",
+       "rename-tmp-to-final", "clear-full-needed"] ∧
+    RqModel.Gen.SinkShape.writeGateRefusesIncrementalWhenFullDue = some true := by decide
+
+/-! ### non-vacuity: an admissible sequence with a failed sink, an incremental and a crash -/
+
+def exOps : List (COp (List Nat)) :=
+  [.create 1 1 10 1, .wfull 1 [1] [] .short, .close 1, .cancel 1, .reopen,
+   .create 2 2 20 1, .wfull 2 [1, 2] [] .ok, .close 2,
+   .create 3 3 30 1, .winc 3 [3], .close 3,
+   .setFull, .create 4 4 40 2, .wfull 4 [1, 2, 3, 4] [] .ok, .crashClose 4 .renamed, .reopen]
+
+def exAlg : DbAlg (List Nat) := ⟨fun d w => d ++ [w]⟩
+
+example : ((runOps exAlg {} exOps).fs.dir 3).isSome = true ∧ ((runOps exAlg {} exOps).fs.dir 4).isSome = true ∧
+    (runOps exAlg {} exOps).fs.fullNeeded = true := by decide
+
+/-- the side conditions are satisfiable: an admissible sequence (incl. the SetDueNext(Full) between
+header and close that the fix makes Close refuse) -/
+def exOK : List (COp (List Nat)) :=
+  [.create 1 1 10 1, .wfull 1 [1] [] .ok, .close 1, .create 2 2 20 1, .winc 2 [2], .setFull, .close 2, .cancel 2]
+
+example : OpsOK exAlg {} exOK := by
+  refine ⟨⟨rfl, ?_, ?_⟩, trivial, trivial, ⟨?_, ?_, ?_⟩, ?_, trivial, trivial, trivial, trivial⟩
+  · intro h k hk; simp [getSink] at hk
+  · intro n d hl; cases hl.1
+  · simp [stepOp, create, writeFull, close, getSink, putSink, finalDir, FS.set]
+  · intro h k hk
+    simp [stepOp, create, writeFull, close, getSink, putSink, finalDir] at hk
+    rw [← hk.2]
+  · intro n d hl
+    obtain ⟨h1, h2⟩ := hl
+    simp [stepOp, create, writeFull, close, getSink, putSink, finalDir, FS.set] at h1
+    split at h1
+    · cases h1
+      rename_i hn
+      subst hn
+      simp [keyOf, keyLe]
+    · cases h1
+  · show ([2] : List Nat) ≠ []; simp
+
+
 end C09
